@@ -77,11 +77,11 @@ Print Assumptions C01_continue_iff_not_consumed.
 (* dispatching a cell (back / back11, favor_runtime_speed): for every candidate list, every behaviour of the
    candidates and every runtime state, what runs is exactly the first k candidates, one after the other; if k is
    not the whole list the k-th consumed the event and none before it did; no candidate after it is evaluated *)
-Theorem C01_first_consumer_stops_back : forall cf mc children fuel r s ev l rn g c rn' g',
+Theorem C01_first_consumer_stops_back : forall cf contained mc children fuel r s ev l rn g c rn' g',
   c_fct cf = false ->
-  run_cell cf mc children fuel r s ev l rn g = (Some c, rn', g') ->
+  run_cell cf contained mc children fuel r s ev l rn g = (Some c, rn', g') ->
   exists cs,
-    exec_first (exec_item cf mc children fuel r s ev) (length cs) l rn g = (Some tt, rn', g') /\
+    exec_first (exec_item cf contained mc children fuel r s ev) (length cs) l rn g = (Some tt, rn', g') /\
     length cs <= length l /\
     (Forall (fun x => x < 8) cs ->
        (length cs < length l -> exists cs0 c0, cs = cs0 ++ [c0] /\ consumed c0 = true /\ Forall (fun x => consumed x = false) cs0) /\
@@ -89,10 +89,10 @@ Theorem C01_first_consumer_stops_back : forall cf mc children fuel r s ev l rn g
 Proof. exact run_cell_prefix. Qed.
 Print Assumptions C01_first_consumer_stops_back.
 
-Theorem C01_first_consumer_stops_fct : forall cf mc children fuel r s ev acc l rn g c rn' g',
-  fct_chain cf mc children fuel r s ev acc l rn g = (Some c, rn', g') ->
+Theorem C01_first_consumer_stops_fct : forall cf contained mc children fuel r s ev acc l rn g c rn' g',
+  fct_chain cf contained mc children fuel r s ev acc l rn g = (Some c, rn', g') ->
   exists cs,
-    exec_first (exec_item cf mc children fuel r s ev) (length cs) l rn g = (Some tt, rn', g') /\
+    exec_first (exec_item cf contained mc children fuel r s ev) (length cs) l rn g = (Some tt, rn', g') /\
     length cs <= length l /\
     c = loop_codes (tab1 fct_chain_continue) (tab2 fct_chain_step) acc cs /\
     (length cs < length l -> c < 8 -> consumed c = true).
